@@ -36,6 +36,12 @@ def run(ctx, res):
     D = Disc(F)
     bs = {B.name: B for B in discover(F)}
     parsers = {a.split("::")[-1]: D.impl_item(PARSER_TRAIT, a, "parse") for a in D.impls_of(PARSER_TRAIT)}
+    # "the configured value" is what the public setter was given: the setter rules (frame / rebuild / collection idioms,
+    # C20) for the builders this property speaks about
+    from .c20 import setter_rules
+    _adts = sorted(B.adt for B in bs.values() if B.name in ('ByeBuilder', 'AppBuilder'))
+    _ns, _nc, _ = setter_rules(F, D, res, _adts)
+    res.floor("(setter, field) pairs of this property's builders checked", _ns, 10)
     n = [0]
     # ------------------------------------------------------------------ BYE
     B = bs.get("ByeBuilder")
